@@ -57,7 +57,78 @@ def decLine (b v : String) (forced : Option Nat) : String :=
     | .panic _ => "panic"
   | _, _ => "bad-op"
 
+/-- structural equality of values (nil-ness of slices included) -/
+partial def valEq : Val → Val → Bool
+  | .word a, .word b => a == b
+  | .long a, .long b => a == b
+  | .dbl a, .dbl b => a == b
+  | .bool a, .bool b => a == b
+  | .str a, .str b => a == b
+  | .bytes n a, .bytes m b => n == m && a == b
+  | .big w a, .big u b => w == u && a == b
+  | .vec n a, .vec m b => n == m && a.length == b.length && (List.zipWith valEq a b).all id
+  | .obj i a, .obj j b => i == j && a.length == b.length && (List.zipWith valEq a b).all id
+  | .null, .null => true
+  | _, _ => false
+
+/-- `k:n[,k:n]` or `-`: value parameter `k` of the top-level object holds the `n` bytes `i % 251` -/
+def parseBig? (s : String) : Option (List (Nat × Nat)) :=
+  if s == "-" then some [] else
+  (s.splitOn ",").mapM fun kn =>
+    match kn.splitOn ":" with
+    | [k, n] => match k.toNat?, n.toNat? with
+      | some k, some n => if n ≤ 2 ^ 25 then some (k, n) else none
+      | _, _ => none
+    | _ => none
+
+def pattern (n : Nat) : Bytes := (List.range n).map fun i => UInt8.ofNat (i % 251)
+
+def putBig : Val → List (Nat × Nat) → Option Val
+  | v, [] => some v
+  | .obj id fs, (k, n) :: rest =>
+    match fs[k]? with
+    | some (.str _) => putBig (.obj id (fs.set k (.str (pattern n)))) rest
+    | some (.bytes _ _) => putBig (.obj id (fs.set k (.bytes false (pattern n)))) rest
+    | _ => none
+  | _, _ => none
+
+def gzReqId : Nat := 0x5e0b700a00000001
+
+/-- `c02.gz`: the schema-defined bytes of the value inside a gzip_packed (alone / as the result of an
+rpc_result), through the decoder model. compress/gzip is not modelled: the model's `gunzip` parameter answers
+the schema-defined bytes of the value for the packed_data of the wrapping (an empty string here), i.e. what is
+assumed of the harness' packing is that it unpacks to what was packed. -/
+def gzLine (wrap v big : String) : String :=
+  match parse? v, parseBig? big with
+  | some v0, some bigs =>
+    match putBig v0 bigs with
+    | none => "bad-op"
+    | some val =>
+      match specVal schema val with
+      | .err "notInSchema" => "enc=notInSchema"
+      | .err _ => "enc=err"
+      | .panic _ => "enc=panic"
+      | .ok bs =>
+        let packed : Bytes := leBytes crcGzip 4 ++ [0, 0, 0, 0]
+        let outer : Bytes := if wrap == "rpc" then leBytes 0xf35c6d01 4 ++ (leBytes gzReqId 8 ++ packed) else packed
+        let dec := match decodeUnknown Mtv.Gen.registry (fun _ => some bs) (fuelFor bs) [] outer with
+          | .ok got =>
+            let inner? : Option Val := match wrap, got with
+              | "rpc", .obj 0xf35c6d01 [.long r, .obj g [x]] => if r == gzReqId && g == crcGzip then some x else none
+              | "gz", .obj g [x] => if g == crcGzip then some x else none
+              | _, _ => none
+            match inner? with
+            | none => "diff"
+            | some x =>
+              if valEq (wire Mtv.Gen.registry none true x) (wire Mtv.Gen.registry none false val) then "ok"
+              else if showVal (erase x) == showVal (erase val) then "diff-nil" else "diff"
+          | .err _ => "err"
+          | .panic _ => "panic"
+        s!"enc={showBytes bs} dec={dec}"
+  | _, _ => "bad-op"
+
 def handle : List String → String
+  | ["c02.gz", wrap, _id, v, big] => if wrap == "gz" || wrap == "rpc" then gzLine wrap v big else "bad-op"
   | ["c02.enc", _id, v] =>
     match parse? v with
     | none => "bad-op"
